@@ -85,6 +85,10 @@ def gen_cases(ctx):
         z = [ctx.randf(-2, 2), ctx.randf(-2, 2)]; f = ctx.randf(-3, 3)
         mk("add", a=a, b=b); mk("sub", a=a, b=b); mk("mul_c", a=a, z=z); mk("c_mul", a=a, z=z); mk("mul_f", a=a, f=f); mk("f_mul", a=a, f=f)
         mk("sum", list=[sv(rng, n, "generic") for _ in range(rng.randrange(1, 6))])
+    # <a|a> with one object on both sides, for vectors that are not normalised (and for normalised ones)
+    for n in (1, 2, 3, 7):
+        for st in ("generic", "normalised", "generic"):
+            mk("inner_self", a=sv(rng, n, st))
     # long sums (more than 64 states, counts that are not multiples of 64): every summand counts
     for k in (65, 100, 130):
         n = rng.randrange(1, 4)
@@ -108,6 +112,7 @@ def coq_term(c, r):
         a = c["args"] + [0, 0]
         return "check_state_res (ctor %s %s %s) %s" % (cqN(CT[c["kind"]]), cqN(a[0]), cqN(a[1]), cres(r))
     if m == "tensor": return "check_state_res (tensor %s %s) %s" % (cst(c["a"]), cst(c["b"]), cres(r))
+    if m == "inner_self": return "check_cplx_res (inner_product fops %s %s) (vmaxabs %s * vmaxabs %s * 2)%%float %s" % (cst(c["a"]), cst(c["a"]), cqvec(c["a"]["v"]), cqvec(c["a"]["v"]), cres(r))
     if m == "inner": return "check_cplx_res (inner_product fops %s %s) (vmaxabs %s * vmaxabs %s * 2)%%float %s" % (cst(c["a"]), cst(c["b"]), cqvec(c["a"]["v"]), cqvec(c["b"]["v"]), cres(r))
     if m == "normalise": return "check_state_res (normalise fops %s) %s" % (cst(c["a"]), cres(r))
     if m == "fidelity": return "check_real_res (fidelity %s %s) %s" % (cst(c["a"]), cst(c["b"]), cres(r))
